@@ -373,6 +373,8 @@ func runC01(p *Prog, r *Report, tier string) {
 	r.Check(tcp && udp && nHU == 2, "R-OWNER.transports", "pkg/collector: all listeners decode through decodePacket", p.pos(dp.Pos()), "TCP/TLS reader and UDP + DTLS handlers (via handleUDPMessage) reach decodePacket",
 		fmt.Sprintf("not every transport delivers through the same decoder (tcp=%v udp=%v handleUDPMessage callers=%d)", tcp, udp, nHU), true)
 	checkDatagramPath(p, r, "R-LAYOUT.datagram")
+	checkNoAdopt(p, r, "R-OWNER.no-adopt")
+	checkNarrowSizeArithmetic(p, r, "R-LAYOUT.buffer-size", "pkg/collector", "pkg/exporter", "pkg/entities")
 	// over UDP and DTLS alike the exporter keeps its templates alive at the collector (C14's start rule)
 	checkBackgroundStart(p, r, "R-OWNER.refresh-started")
 	checkConnMethods(p, r, "R-OWNER.conn-methods")
